@@ -65,6 +65,8 @@ type atomMark struct {
 }
 
 type atomWalker struct {
+	pi       *pkgInfo // when set, calls to methods of the same receiver are followed
+	depth    int
 	fn       string
 	recv     string // receiver variable name
 	recvType string
@@ -174,6 +176,42 @@ func (w *atomWalker) callMark(st lockState, c *ast.CallExpr) {
 	}
 }
 
+// sibling: a call `recv.m(...)` to a method of the same type whose body is available
+func (w *atomWalker) sibling(e ast.Expr) *ast.FuncDecl {
+	if w.pi == nil || w.depth >= 4 {
+		return nil
+	}
+	c, ok := e.(*ast.CallExpr)
+	if !ok {
+		return nil
+	}
+	se, ok := c.Fun.(*ast.SelectorExpr)
+	if !ok {
+		return nil
+	}
+	id, ok := se.X.(*ast.Ident)
+	if !ok || id.Name != w.recv {
+		return nil
+	}
+	fd := w.pi.funcs[w.recvType+"."+se.Sel.Name]
+	if fd == nil || fd.Body == nil || fd.Recv == nil || len(fd.Recv.List[0].Names) == 0 {
+		return nil
+	}
+	return fd
+}
+
+// follow walks the body of a sibling method as if it were written at the call site: its
+// statements run under the caller's locks, and the locks it holds on return are the caller's
+func (w *atomWalker) follow(st lockState, fd *ast.FuncDecl) lockState {
+	sub := &atomWalker{pi: w.pi, depth: w.depth + 1, fn: w.fn, recv: fd.Recv.List[0].Names[0].Name, recvType: w.recvType,
+		next: w.next, pairs: w.pairs, acquires: w.acquires}
+	out := sub.block(st, fd.Body.List)
+	w.next = sub.next
+	w.marks = append(w.marks, sub.marks...)
+	w.calls = append(w.calls, sub.calls...)
+	return out
+}
+
 func terminates(list []ast.Stmt) bool {
 	if len(list) == 0 {
 		return false
@@ -239,6 +277,13 @@ func (w *atomWalker) stmt(st lockState, s ast.Stmt) lockState {
 			}
 			return st
 		}
+		if fd := w.sibling(t.X); fd != nil {
+			for _, a := range t.X.(*ast.CallExpr).Args {
+				w.exprMarks(st, a, "")
+			}
+			w.callMark(st, t.X.(*ast.CallExpr))
+			return w.follow(st, fd)
+		}
 		w.exprMarks(st, t.X, "")
 	case *ast.DeferStmt:
 		if _, op, ok := lockCall(t.Call); ok && (op == "Unlock" || op == "RUnlock") {
@@ -258,6 +303,11 @@ func (w *atomWalker) stmt(st lockState, s ast.Stmt) lockState {
 		w.mark(st, "go:"+selString(t.Call.Fun))
 	case *ast.AssignStmt:
 		for _, r := range t.Rhs {
+			if fd := w.sibling(r); fd != nil {
+				w.callMark(st, r.(*ast.CallExpr))
+				st = w.follow(st, fd)
+				continue
+			}
 			w.exprMarks(st, r, "")
 		}
 		for _, l := range t.Lhs {
@@ -348,6 +398,11 @@ func (w *atomWalker) stmt(st lockState, s ast.Stmt) lockState {
 		w.mark(st, "send:"+selString(t.Chan))
 	case *ast.ReturnStmt:
 		for _, r := range t.Results {
+			if fd := w.sibling(r); fd != nil {
+				w.callMark(st, r.(*ast.CallExpr))
+				st = w.follow(st, fd)
+				continue
+			}
 			w.exprMarks(st, r, "")
 		}
 	case *ast.LabeledStmt:
@@ -489,7 +544,7 @@ func genAtomic() string {
 			addProblem(item, "function not found")
 			continue
 		}
-		w := &atomWalker{fn: af.pkg + "." + af.fn, recv: fd.Recv.List[0].Names[0].Name, recvType: strings.Split(af.fn, ".")[0], pairs: map[[2]string]string{}, acquires: map[string]bool{}}
+		w := &atomWalker{pi: pi, fn: af.pkg + "." + af.fn, recv: fd.Recv.List[0].Names[0].Name, recvType: strings.Split(af.fn, ".")[0], pairs: map[[2]string]string{}, acquires: map[string]bool{}}
 		w.block(lockState{}, fd.Body.List)
 		all = append(all, w.marks...)
 	}
